@@ -192,6 +192,99 @@ func runC17(w *World, r *Report) {
 		}
 	}
 
+	// reading prunes only what is really gone: a hash leaves the list because ITS transaction entry was not found
+	r.rule("prune-only-the-missing", "ReadTransactions rewrites an address list only by removing hashes whose own transaction entry was missing (or by keeping hashes whose entry was found): position in the list decides nothing", 1)
+	if rt := w.Func("cache", "Hippocampus", "ReadTransactions"); rt != nil {
+		fns := withHelpers(rt, 1)
+		isTrxGet := func(c ssa.CallInstruction) bool {
+			if calleeName(c) != "(*"+bigPkg+".BigCache).Get" {
+				return false
+			}
+			_, a := callArgs(c)
+			for _, o := range origins(a[0]) {
+				if kc, ok := o.(*ssa.Call); ok && strings.HasSuffix(calleeName(kc), ".encodeTrxKey") {
+					return true
+				}
+			}
+			return false
+		}
+		lookup := func(pass func(ssa.CallInstruction) []Edge) gspec {
+			return func(fn2 *ssa.Function, _ resolver) []Edge {
+				var es []Edge
+				instrsOf(fn2, func(in ssa.Instruction) {
+					if c, ok := in.(ssa.CallInstruction); ok && isTrxGet(c) {
+						es = append(es, pass(c)...)
+					}
+				})
+				return es
+			}
+		}
+		// edges of each function on which "the entry of this hash was found / was missing" is known — directly or through a
+		// helper that reports it (error result, or an `ok` among several results)
+		foundIn := map[*ssa.Function][]Edge{}
+		missingIn := map[*ssa.Function][]Edge{}
+		for _, fn := range fns {
+			for _, ff := range WithAnon(fn) {
+				foundIn[ff] = deepEdges(ff, idRes, lookup(passErrNil), 1)
+				missingIn[ff] = deepEdges(ff, idRes, lookup(failErrNonNil), 1)
+			}
+		}
+		nMut := 0
+		for _, fn := range fns {
+			for _, c := range callsToDeep(fn, cn("cache", "", "remove"), cn("cache", "", "add"), cn("cache", "", "set")) {
+				nMut++
+				name := shortCallee(c)
+				_, a := callArgs(c)
+				ok := false
+				why := ""
+				switch name {
+				case "remove":
+					// the removed hash was collected behind the not-found edge of its own entry lookup
+					h := a[len(a)-1]
+					// either the removal itself sits behind the not-found edge of the lookup, or the hash is an element of
+					// a local list every append to which sits behind such an edge
+					missing := missingIn[c.Parent()]
+					ok = behind(c.(ssa.Instruction), missing)
+					if !ok {
+						if ld, isLd := h.(*ssa.UnOp); isLd {
+							if ia, isIA := ld.X.(*ssa.IndexAddr); isIA {
+								apps := appendsFeeding(ia.X)
+								if prm, isParam := ia.X.(*ssa.Parameter); isParam { // the list of stale hashes is handed in by the caller
+									hfn := prm.Parent()
+									for k, p2 := range hfn.Params {
+										if p2 != prm {
+											continue
+										}
+										for _, cs := range staticCallers(w, hfn) {
+											if k < len(cs.Common().Args) {
+												apps = append(apps, appendsFeeding(cs.Common().Args[k])...)
+											}
+										}
+									}
+								}
+								ok = len(apps) > 0
+								for _, ap := range apps {
+									if !behind(ap, missingIn[ap.Parent()]) {
+										ok = false
+									}
+								}
+							}
+						}
+					}
+					why = "the removed hash was not collected behind the not-found edge of its own transaction lookup"
+				default:
+					// a list rebuilt from the hashes that were found
+					ok = behind(c.(ssa.Instruction), foundIn[c.Parent()])
+					why = "a hash is kept in the rewritten list without its transaction having been found in this read"
+				}
+				r.check(ok, "prune-only-the-missing", "ReadTransactions/"+name, lineOf(w, c), "the list is rewritten hash by hash, by what the lookup of that hash returned", why)
+			}
+		}
+		if nMut == 0 {
+			r.ok("prune-only-the-missing", "ReadTransactions/none", w.Pos(rt.Pos()), "ReadTransactions does not rewrite lists")
+		}
+	}
+
 	// the awaiting index owns its key space: nothing else in the cache writes under an index key
 	r.rule("index-keys-private", "every write to the cache under a key built by encodeAddressKey / encodeTrxKey sits in the awaiting-index functions, and those functions write under no other keys (the balance entries share the cache: a shared key would let one clobber the other)", 6)
 	indexFns := map[string]bool{"SaveAwaitedTransaction": true, "RemoveAwaitedTransaction": true, "ReadTransactions": true}
